@@ -256,15 +256,7 @@ def insertion(ctx):
     fn, fill, sweep, sweepname = sweep_fill_ctx(ctx)
     loc = NL + '::nlist'
     M, D = sp.symbols('maxneighbors deltasize', positive=True)
-    al = [s for s in ast.walk(fn) if isinstance(s, ast.Assign) and norm(s.targets[0]) in ('neighbors', 'newneighbors') and isinstance(s.value, ast.Call) and norm(s.value.func) in ('np.empty', 'np.zeros')]
-    ctx.need(len(al) == 2, 'nlist: allocation of neighbors / newneighbors not found')
-    w0 = _sym(al[0].value.args[0].elts[1], ['maxneighbors', 'deltasize'])
-    w1 = _sym(al[1].value.args[0].elts[1], ['maxneighbors', 'deltasize'])
-    grow = [s for s in ast.walk(sweep) if isinstance(s, ast.AugAssign) and norm(s.target) == 'maxneighbors']
-    ctx.need(len(grow) == 1, 'nlist: maxneighbors growth statement not found')
-    g = _sym(grow[0].value, ['maxneighbors', 'deltasize'])
-    ctx.ob('INSERTION', loc, 'row width is capacity+1 initially and after growth (width_new = (maxneighbors + growth) + 1), growth >= 1',
-           sp.expand(w0 - (M + 1)) == 0 and sp.expand(w1 - (M + g + 1)) == 0 and sp.simplify(g - D) == 0, 'initial %s, grown %s, capacity += %s' % (w0, w1, g), node=al[1])
+    # (row width and growth step of the neighbour table are judged on the tables the scenarios below end with: capacity + 1 columns, capacity = initial + k * deltasize)
     # the pair-insertion block, interpreted on small concrete tables (finite table logic: which slot gets which id)
     import numpy as np
     stores = [s_ for s_ in ast.walk(sweep) if isinstance(s_, ast.Assign) and isinstance(s_.targets[0], ast.Subscript) and norm(s_.targets[0].value) in ('neighbors', 'newneighbors')]
@@ -332,8 +324,8 @@ def insertion(ctx):
                 if row != sorted(want[i]):
                     bad.append('row %d holds %s, expected %s' % (i, row, sorted(want[i])))
             need = max(len(v_) for v_ in want.values())
-            if int(env['maxneighbors']) < need or tab.shape[1] != int(env['maxneighbors']) + 1:
-                bad.append('capacity %s with %d columns for a largest list of %d' % (env['maxneighbors'], tab.shape[1], need))
+            if int(env['maxneighbors']) < need or tab.shape[1] != int(env['maxneighbors']) + 1 or (int(env['maxneighbors']) - cap) % delta != 0 or int(env['maxneighbors']) < cap:
+                bad.append('capacity %s (initially %d, growth step %d) with %d columns for a largest list of %d' % (env['maxneighbors'], cap, delta, tab.shape[1], need))
             ok, det = not bad, '; '.join(bad[:3])
         except (Opaque, WouldRaise, IndexError, TypeError) as e:
             ok, det = False, 'insertion cannot be carried out: %s' % e
@@ -731,7 +723,7 @@ def neighborlist(ctx):
     for isz in (1, 2, 3):
         objg = SymObj(cls0, {}, 'self')
         evg = SymEval(module_aliases(ctx.mod(NLP)))
-        evg.globals = {'nlist': lambda system, cutoff, **kw: tab0.copy()}
+        evg.globals = {'nlist': lambda system, cutoff, initialsize=20, deltasize=10: tab0.copy()}        # the parameter list of atomman.core.nlist
         try:
             evg.run_fn(b, [objg, 'SYSTEM', sp.Rational(7, 2)], {'initialsize': I0(isz), 'deltasize': I0(1)})
             rowsg = [[int(v) for v in evg.call_fn(ctx.fn(NLP, 'NeighborList.__getitem__'), [objg, I0(i)], {}, Path({}))] for i in range(3)]
@@ -745,7 +737,7 @@ def neighborlist(ctx):
     seen = []
     obj0 = SymObj(cls0, {}, 'self')
     ev0 = SymEval(module_aliases(ctx.mod(NLP)))
-    ev0.globals = {'nlist': lambda system, cutoff, **kw: (seen.append((system, cutoff, kw)), tab0)[1]}
+    ev0.globals = {'nlist': lambda system, cutoff, initialsize=20, deltasize=10: (seen.append((system, cutoff, {'initialsize': initialsize, 'deltasize': deltasize})), tab0)[1]}
     try:
         ev0.run_fn(b, [obj0, 'SYSTEM', sp.Rational(7, 2)], {'initialsize': I0(5), 'deltasize': I0(3)})
         okb = seen == [('SYSTEM', sp.Rational(7, 2), {'initialsize': 5, 'deltasize': 3})]
